@@ -4,9 +4,11 @@
 (*                                                                         *)
 (* A "case" is <<list, line, h>>: the listed numbers in the order given,   *)
 (* one input line, one hash value.  The implementation model M (AsNum.tla) *)
-(* first answers anonymize(n) for every listed n and then rewrites the     *)
-(* line; the requirement R judges exactly what the trace validator will    *)
-(* see: the direct answers teach `known`, then the line is judged.         *)
+(* answers anonymize(n) through an anonymizer built for n ALONE, then      *)
+(* through the anonymizer built for the whole list, which then rewrites    *)
+(* the line; the requirement R judges exactly what the trace validator     *)
+(* will see: the single-number answers teach `known`, the list             *)
+(* anonymizer's answers and its line are judged against it.                *)
 (*                                                                         *)
 (*   MImpliesR      every case of M is accepted by R                       *)
 (*   RDeterminate   whatever implementation (M or any named deviation) is  *)
@@ -52,15 +54,26 @@ Next == /\ phase = 0 /\ phase' = 1 /\ UNCHANGED list
 Spec == Init /\ [][Next]_vars
 
 L == {list[i] : i \in 1..Len(list)}
-Devs == {"none"} \cup ReplDeviations \cup ScanDeviations
+Devs == {"none"} \cup ReplDeviations \cup ScanDeviations \cup MapDeviations
 
-\* what the trace validator sees of implementation d: the direct answers, then the line
-DirectOK(d)  == \A n \in L : ReplVerdict(n, MRepl(d, n, h), << >>) = "ok"
-KnownOf(d)   == [n \in L |-> Norm(MRepl(d, n, h))]
-Accepted(d)  == DirectOK(d) /\ LineVerdict(L, line, MOut(d, list, line, h), KnownOf(d)).clause = "ok"
+\* what the trace validator sees of implementation d: first the answers of anonymizers built for
+\* each listed number ALONE (they teach `known`), then the answers of the anonymizer built for the
+\* whole list, then its line
+\* (for every deviation but AvoidCollisions the single-number anonymizer and the list anonymizer
+\* give the same answers by construction of MMap, so the map is computed once)
+Case(d) ==
+  LET lm    == MMap(d, list, h)
+      known == IF d \in MapDeviations THEN [n \in L |-> Norm(MMap(d, <<n>>, h)[n])]
+               ELSE [n \in L |-> Norm(lm[n])]
+      out   == MScan(d, list, line, 1, lm, FALSE)
+      ok    == /\ \A n \in L : ReplVerdict(n, known[n], << >>) = "ok"
+               /\ d \in MapDeviations => \A n \in L : ReplVerdict(n, lm[n], known) = "ok"
+               /\ LineVerdict(L, line, out, known).clause = "ok"
+  IN [ok |-> ok, out |-> out, known |-> known]
+Accepted(d) == Case(d).ok
 
 MImpliesR    == phase = 1 => Accepted("none")
-RDeterminate == phase = 1 => \A d \in Devs : Accepted(d) => MOut(d, list, line, h) = Expected(L, line, KnownOf(d))
+RDeterminate == phase = 1 => \A d \in Devs : LET c == Case(d) IN c.ok => c.out = Expected(L, line, c.known)
 \* the map R learns from a line alone is the implementation's
 LearnsMap    == phase = 1 =>
                   LET v == LineVerdict(L, line, MOut("none", list, line, h), << >>) IN
@@ -74,4 +87,5 @@ DeviationInvisible_NoLookbehind      == phase = 1 => Accepted("NoLookbehind")
 DeviationInvisible_NoLookahead       == phase = 1 => Accepted("NoLookahead")
 DeviationInvisible_AtomicAlternation == phase = 1 => Accepted("AtomicAlternation")
 DeviationInvisible_FirstMatchOnly    == phase = 1 => Accepted("FirstMatchOnly")
+DeviationInvisible_AvoidCollisions   == phase = 1 => Accepted("AvoidCollisions")
 =============================================================================
